@@ -588,6 +588,18 @@ func (c *Ctx) MapFat() *Doc {
 		d.Servers = []*Server{{URL: "https://{" + names[0] + "}.example.com/{" + names[1] + "}/{" + names[2] + "}", Variables: vars}}
 		c.Tag("fat:server-variables")
 	}
+	// content maps whose keys differ only in media type parameters or letter case, each
+	// with its own schema (every entry is its own media type)
+	{
+		mk := func(prop string) *Schema {
+			return &Schema{Type: "object", Properties: map[string]*Schema{prop: {Type: "string"}}, Required: []string{prop}}
+		}
+		content := map[string]*MediaType{"application/json": {Schema: mk("plain")}, "application/json; charset=utf-8": {Schema: mk("with_charset")},
+			"application/json;charset=UTF-8": {Schema: mk("with_charset_nospace")}, "Application/JSON": {Schema: mk("upper")}, "application/problem+json": {Schema: mk("problem")}}
+		op := &Operation{RequestBody: &RequestBody{Content: content}, Responses: map[string]*Response{"200": {Description: Str("ok"), Content: content}, "default": {Description: Str("d"), Content: content}}}
+		d.Paths["/"+c.PlainName("fatcontent", "fatcontent")] = &PathItem{Post: op}
+		c.Tag("fat:content-keys")
+	}
 	// security: >=4 schemes, one requirement naming several schemes (AND), oauth scopes
 	{
 		if cs.SecuritySchemes == nil {
